@@ -236,6 +236,15 @@ func propC08(o *propOpts) *propResult {
 			stmts = append(stmts, t)
 		}
 	}
+	// the hand-written grammar G₀ (types, casts, typed literals, simple queries with awkward but legitimate names)
+	for _, st := range g0Sentences(o.tier) {
+		e := entryByName(st.entry)
+		res.eval(e.name+"|"+st.text, true, func() any { return map[string]any{"entry": e.name, "sentence": st.text} })
+		res.count("G0_" + st.entry)
+		if d := c08Check(e, st.text); d != "" {
+			res.fail("g0:"+st.entry+":"+st.text, st.text, e.name, d)
+		}
+	}
 	nlist := 600
 	if o.tier == "thorough" {
 		nlist = 12000
